@@ -333,25 +333,29 @@ def gateAdd (st : Init) (known : List (Str × List IGate)) (name : Str) (ps : Li
                 | .ok l => .ok (gs.map IOp.gate ++ l)
         (loop rs).map (·, known)
     else
-      let expand : Except Err (List IGate × List (Str × List IGate)) :=
-        match known.find? (fun e => e.1 == gname) with
-        | some e => .ok (e.2, known)        -- `custom_gates[gate_name]` already computed
-        | none =>
-          match rs with
-          | [] => .error .index
-          | r0 :: _ =>
-            (customGate st.defs 64 name ps (List.range r0.length)).map (fun g => (g, (gname, g) :: known))
-      match expand with
-      | .error e => .error e
-      | .ok (inner, known') =>
-        let rec loop2 : List (List Nat) → Except Err (List IOp)
-          | [] => .ok []
-          | regs :: more =>
-            if firstDup regs then .error .value
-            else match loop2 more with
-              | .error e => .error e
-              | .ok l => .ok (IOp.custom gname regs cc cv inner :: l)
-        (loop2 rs).map (·, known')
+      -- `gate = self.qasm_gates[command[0]]`, `len(reg_set[0])`, `_check_arity` — on every call
+      match st.defs.find? (fun d => d.name == name), rs with
+      | none, _ => .error .key
+      | some _, [] => .error .index
+      | some d, r0 :: _ =>
+        match checkArity d.params.length d.qargs.length ps r0 with
+        | .error e => .error e
+        | .ok _ =>
+          let expand : Except Err (List IGate × List (Str × List IGate)) :=
+            match known.find? (fun e => e.1 == gname) with
+            | some e => .ok (e.2, known)        -- `custom_gates[gate_name]` already computed
+            | none => (customGate st.defs 64 name ps (List.range r0.length)).map (fun g => (g, (gname, g) :: known))
+          match expand with
+          | .error e => .error e
+          | .ok (inner, known') =>
+            let rec loop2 : List (List Nat) → Except Err (List IOp)
+              | [] => .ok []
+              | regs :: more =>
+                if firstDup regs then .error .value
+                else match loop2 more with
+                  | .error e => .error e
+                  | .ok l => .ok (IOp.custom gname regs cc cv inner :: l)
+            (loop2 rs).map (·, known')
 
 /-! ## measurements (`_regs_processor`, "measure") -/
 
